@@ -90,10 +90,11 @@ SHAPE_DOC = {
     50: "shape 0 with the primary head directory unusable (its parent is a file): the Filer falls back to its alternate head",
     51: "shape 1 with the primary head directory unusable",
     52: "shape 0 with RELATIVE class-level head directories, the working directory changed between init and close(clear=True)",
+    53: "shape 1 with perm=0o600 (no execute bit on what the Filer makes): the second open must find its own path again",
 }
 BLOCKED = (50, 51)
-QUICK_SHAPES = (0, 1, 10, 11, 12, 20, 30, 31, 34, 40, 42, 43, 50, 52)
-THOROUGH_SHAPES = (0, 1, 2, 3, 10, 11, 12, 20, 21, 30, 31, 32, 33, 34, 40, 41, 42, 43, 50, 51, 52)
+QUICK_SHAPES = (0, 1, 10, 11, 12, 20, 30, 31, 34, 40, 42, 43, 50, 52, 53)
+THOROUGH_SHAPES = (0, 1, 2, 3, 10, 11, 12, 20, 21, 30, 31, 32, 33, 34, 40, 41, 42, 43, 50, 51, 52, 53)
 DOER_TEMP = {(0, 0): None, (0, 1): True, (1, 0): False}
 
 
@@ -121,6 +122,8 @@ def plan(flags, shape):
         return [("init", {}), ("FilerDoer.enter", {"temp": DOER_TEMP[(int(reuse), int(clear))]}), ("FilerDoer.exit", {})]
     if shape == 52:
         return [("init", {}), ("chdir", {}), ("close", {"clear": True})]
+    if shape == 53:
+        shape = 1
     if shape in BLOCKED:
         shape -= 50
     if shape in (0, 1, 2, 3):
@@ -343,7 +346,7 @@ def run_case(top, name, base, flags, shape):
             try:
                 if op == "init":
                     filer = cls(name=name, base=base, temp=temp, reopen=True, clear=clear, reuse=reuse, clean=clean,
-                                filed=filed, extensioned=extensioned)
+                                filed=filed, extensioned=extensioned, **({"perm": 0o600} if shape == 53 else {}))
                 elif op == "new":
                     if args.get("plain"):
                         filer = cls(name="main", base="", temp=temp, reopen=False, filed=filed, extensioned=extensioned)
